@@ -3,7 +3,7 @@ import itertools
 from . import ipgen
 from .ipcommon import MODEL_DEPS, TRUSTED_BASE, ASSUMPTIONS  # noqa
 
-COQ_DEPS = ["lib/PPCore.v", "lib/PPHost.v", "lib/Memo.v", "lib/MemoProofs.v"]
+COQ_DEPS = ["lib/PPCore.v", "lib/PPHost.v", "lib/Memo.v", "lib/MemoProofs.v", "lib/PyLib.v", "gen/G_fn_ip.v", "refine/RefIpCommon.v", "refine/RefAnon.v", "refine/RefDeanon.v"]
 RULE = ("request histories mixing anonymize and undo with repeats: exhaustive up to length 3 (4 thorough) at width 3 for every B under random flip tables; "
         "random histories at widths 4-6, 32 and 128; every answer compared with the cache-free reference; non-trivial = a history with both directions")
 
